@@ -640,6 +640,16 @@ func (s *BgpServer) prePolicyFilterpath(peer *peer, path, old *table.Path) (*tab
 		}
 		if table.CanImportToVrf(vrf, path) {
 			path = path.ToLocal()
+			// what the filters below withdraw in place of "path" is the
+			// route this neighbour was sent: the plain form of "old" if it
+			// was imported, nothing otherwise
+			if old != nil {
+				if table.CanImportToVrf(vrf, old) {
+					old = old.ToLocal()
+				} else {
+					old = nil
+				}
+			}
 		} else if old != nil && table.CanImportToVrf(vrf, old) {
 			// the route no longer matches the import targets, the one it
 			// replaces did and was advertised: withdraw that
